@@ -398,12 +398,53 @@ static size_t c_shared(int in, uint8_t *o, size_t cap) {
     }
     return put_u64s(o, 0, r, 12);
 }
+
+/* Short inputs: implementations switch strategy with the input size (stack or
+ * static scratch instead of the heap, unrolled tails, no blocks); every array
+ * codec once more on the first 12 and 100 values, per-thread different data */
+static size_t c_small(int in, uint8_t *o, size_t cap) {
+    (void)cap;
+    size_t at = 0;
+    for (int pass = 0; pass < 2; pass++) {
+        size_t n = pass ? 100 : 12;
+        const uint64_t *xs = IN[in] + (pass ? 3 : 0);
+        uint8_t *buf = o + 16384;
+        uint64_t back[128];
+        uint64_t r[16] = {0};
+        varintFORMeta fm; memset(&fm, 0, sizeof(fm));
+        size_t w = varintFOREncode(buf, xs, n, &fm);
+        r[0] = w; r[1] = varintFORDecode(buf, back, n); r[2] = back[n - 1];
+        varintPFORMeta pm; memset(&pm, 0, sizeof(pm));
+        w = varintPFOREncode(buf, xs, (uint32_t)n, 95, &pm);
+        varintPFORMeta dm; memset(&dm, 0, sizeof(dm));
+        r[3] = w; r[4] = varintPFORDecode(buf, back, &dm); r[5] = back[n / 2];
+        w = varintDictEncode(buf, xs, n);
+        r[6] = w; r[7] = w ? varintDictDecodeInto(buf, w, back, n) : 0;
+        w = varintRLEEncodeWithHeader(buf, xs, n, NULL);
+        r[8] = w; r[9] = varintRLEDecodeWithHeader(buf, back, n);
+        w = varintAdaptiveEncode(buf, xs, n, NULL);
+        r[10] = w; r[11] = varintAdaptiveDecode(buf, back, n, NULL); r[12] = back[0];
+        double dv[128], db[128];
+        for (size_t i = 0; i < n; i++) dv[i] = DIN[(i + (size_t)in * 7) % N] * (double)(in + 1);
+        for (int prec = 0; prec < 4; prec++) {
+            w = varintFloatEncode(buf, dv, n, (varintFloatPrecision)prec, (varintFloatEncodingMode)(prec % 3));
+            uint64_t h = 1469598103934665603ULL;
+            for (size_t i = 0; i < w; i++) h = (h ^ buf[i]) * 1099511628211ULL;
+            r[13] = r[13] * 31 + h + w;
+            r[14] = r[14] * 31 + varintFloatDecode(buf, n, db);
+            memcpy(&h, &db[n - 1], 8);
+            r[15] = r[15] * 31 + h;
+        }
+        at = put_u64s(o, at, r, 16);
+    }
+    return at;
+}
 static const struct { const char *name; callfn fn; } CALLS[] = {
     {"tagged", c_tagged}, {"external", c_ext}, {"chained", c_chained}, {"delta", c_delta}, {"for", c_for},
     {"pfor", c_pfor}, {"group", c_group}, {"dict", c_dict}, {"rle", c_rle}, {"elias", c_elias},
     {"bp128", c_bp}, {"float", c_float}, {"adaptive", c_adaptive}, {"packed", c_packed},
     {"bitstream", c_bitstream}, {"adaptive_big", c_adaptive_big}, {"bitmap_obj", c_bitmap_obj}, {"readers", c_readers},
-    {"scalar_slab", c_scalar_slab}, {"shared", c_shared}};
+    {"scalar_slab", c_scalar_slab}, {"small", c_small}, {"shared", c_shared}};
 #define NCALLS (sizeof(CALLS) / sizeof(CALLS[0]))
 
 static pthread_barrier_t bar;
